@@ -273,8 +273,38 @@ def separator_runs(unit, fn):
                 used = [y["referencedDecl"]["id"] for y in A.walk(hit) if y.get("kind") == "DeclRefExpr" and y["referencedDecl"]["id"] in ps]
                 if len(used) == 1 and (c.get("id"), used[0]) not in seen:
                     seen.add((c.get("id"), used[0]))
-                    out.append((A.kids(hb), ("through", used[0]), c))
+                    SEPARATOR_HELPERS[nm] = (A.kids(hb), used[0])
+                    # the call stands among the caller's own skipping statements (`skip_while(&src, isspace); skip(&src);`):
+                    # the run is the caller's run, with the helper evaluated in place
+                    k_ = [p_["id"] for p_ in unit.params(h)].index(used[0])
+                    arg = A.strip_casts(A.kids(c)[1 + k_]) if len(A.kids(c)) > 1 + k_ else {}
+                    cur = A.ref_id(A.kids(arg)[0]) if arg.get("kind") == "UnaryOperator" and arg.get("opcode") == "&" and A.kids(arg) else None
+                    st = c
+                    for anc in unit.ancestors(c):
+                        if anc.get("kind") == "CompoundStmt":
+                            break
+                        st = anc
+                    par = unit.parent.get(st.get("id"))
+
+                    def skipish(x):
+                        return _is_skip_stmt(x) or (not [y for y in A.calls_in(x) if A.callee_name(y) not in SEPARATOR_HELPERS and A.callee_name(y) not in ("skip_while", "skip_fmt", "__ctype_b_loc")]
+                                                    and any(A.callee_name(y) in SEPARATOR_HELPERS for y in A.calls_in(x)))
+                    if cur is not None and par is not None and par.get("kind") == "CompoundStmt" and skipish(st):
+                        sibs = A.kids(par)
+                        idx = next(i_ for i_, s_ in enumerate(sibs) if s_ is st)
+                        lo = idx
+                        while lo - 1 >= 0 and skipish(sibs[lo - 1]):
+                            lo -= 1
+                        hi = idx
+                        while hi + 1 < len(sibs) and skipish(sibs[hi + 1]):
+                            hi += 1
+                        out.append((sibs[lo:hi + 1], cur, c))
+                    else:
+                        out.append((A.kids(hb), ("through", used[0]), c))
     return out
+
+
+SEPARATOR_HELPERS = {}     # name of a unit helper that skips comments through a pointer to the cursor -> (its statements, that parameter)
 
 
 def run_separator(unit, stmts, cur_id, text):
@@ -314,6 +344,13 @@ def run_separator(unit, stmts, cur_id, text):
                 rd = mini_sscanf_full(text[ev.env[cur_id] - 4096:], lit)
                 ev.env[cur_id] += rd
                 return rd
+            if name in SEPARATOR_HELPERS and not through:
+                # a helper that advances the caller's cursor through `&cursor`: evaluated in place on the rest of the text
+                hst, hp = SEPARATOR_HELPERS[name]
+                at = ev.env[cur_id] - 4096
+                adv = run_separator(unit, hst, ("through", hp), text[at:])
+                ev.env[cur_id] += adv
+                return adv
             if name == "skip_while":
                 p = ev.env[cur_id] - 4096
                 while p < len(text) and text[p].isspace():
